@@ -176,6 +176,25 @@ fn adapt<I: DoubleEndedIterator + ExactSizeIterator>(it: I, rev: bool, skip: usi
 }
 
 /// Wraps a real iterator over mutable handles: `R` reads a handle, `W` writes it.
+/// What a call on a collection whose alpha has another element type answers with. Should palette's own
+/// `with_capacity` / `push` / `pop` / `clear` / `drain` for `Alpha<Color<Vec<T>>, Vec<A>>` with `A != T` ever
+/// go away, method calls fall through `Deref` to the color collection and leave the alpha vector behind. The
+/// harness must still build then and *show* that, instead of answering "does not build": the item conversion
+/// accepts both answers (a bare color counts as "alpha lost"), and the two entry points the harness cannot do
+/// without have fall-backs of the same name (an inherent method or function always wins over a trait's).
+/// (Learnt from a seeded change that narrowed the impl header to `Vec<T>` alpha.)
+pub trait AnswerM {
+    fn into_item_m(self) -> Item;
+}
+
+pub fn read_answers<'a, I>(it: I) -> Box<dyn It + 'a>
+where
+    I: DoubleEndedIterator + ExactSizeIterator + 'a,
+    I::Item: AnswerM,
+{
+    Box::new(ReadIt(it, |c: I::Item| c.into_item_m()))
+}
+
 pub struct WriteIt<I, R, W>(pub I, pub R, pub W);
 
 impl<I, R, W> It for WriteIt<I, R, W>
@@ -1002,11 +1021,32 @@ macro_rules! soa {
             // ---------------------------------------------------------- alpha of another element type
             pub struct MixedAlpha(pub Alpha<C<Vec<f32>>, Vec<f64>>);
 
+            impl AnswerM for Alpha<C<f32>, f64> {
+                fn into_item_m(self) -> Item { to_item_m(self) }
+            }
+            impl AnswerM for C<f32> {
+                // the color collection answered instead of the alpha wrapper: alpha is lost
+                fn into_item_m(self) -> Item {
+                    let mut a = to_item(self);
+                    a[NCOLOR] = f32::NAN;
+                    a
+                }
+            }
+            #[allow(dead_code)]
+            trait MixedFallback: Sized {
+                fn with_capacity(n: usize) -> Self;
+                fn push(&mut self, c: Alpha<C<f32>, f64>);
+            }
+            impl MixedFallback for Alpha<C<Vec<f32>>, Vec<f64>> {
+                fn with_capacity(_n: usize) -> Self { core::iter::empty::<Alpha<C<f32>, f64>>().collect() }
+                fn push(&mut self, c: Alpha<C<f32>, f64>) { self.extend(core::iter::once(c)) }
+            }
+
             impl Sut for MixedAlpha {
                 fn lens(&self) -> Vec<usize> { let mut l = vec_lens(&self.0.color); l.push(self.0.alpha.len()); l }
                 fn caps(&self) -> Vec<usize> { let mut l = vec_caps(&self.0.color); l.push(self.0.alpha.capacity()); l }
                 fn push(&mut self, it: Item) { self.0.push(from_item_m(it)) }
-                fn pop(&mut self) -> Option<Item> { self.0.pop().map(to_item_m) }
+                fn pop(&mut self) -> Option<Item> { self.0.pop().map(AnswerM::into_item_m) }
                 fn clear(&mut self) { self.0.clear() }
                 fn extend(&mut self, src: &mut dyn Iterator<Item = Item>) {
                     self.0.extend(src.map(from_item_m))
@@ -1072,7 +1112,7 @@ macro_rules! soa {
                 fn iter<'a>(&'a self) -> Option<Box<dyn It + 'a>> { None }
                 fn iter_mut<'a>(&'a mut self) -> Option<Box<dyn It + 'a>> { None }
                 fn drain<'a>(&'a mut self, r: &RangeSpec) -> Box<dyn It + 'a> {
-                    with_range!(r, |r| Box::new(ReadIt(self.0.drain(r), to_item_m)) as Box<dyn It + 'a>)
+                    with_range!(r, |r| read_answers(self.0.drain(r)))
                 }
                 fn into_iter(self: Box<Self>) -> Option<Box<dyn It>> { None }
                 fn snap(&self, _form: Form, _actions: &[SnapAction]) -> Option<SnapResult> { None }
